@@ -99,6 +99,47 @@ pub fn depth_bound(src: &[u8]) -> usize {
     max + dubious
 }
 
+/// directory with `fuzz-corpus/`, `fuzz-artifacts/` and `fuzz.log` of a libFuzzer campaign (set by ./check)
+fn fuzz_dir() -> Option<String> {
+    std::env::var("VERIF_FUZZ_DIR").ok().filter(|d| !d.is_empty())
+}
+
+/// a file of the fuzz target: byte 0 selects format, style and precision, the rest is the source
+pub fn fuzz_case(data: &[u8]) -> Option<Case> {
+    if data.len() < 2 {
+        return None;
+    }
+    let sel = data[0];
+    Some(Case::from_bytes(data[1..].to_vec(), sel & 1 == 1, if sel & 2 == 2 { St::Compressed } else { St::Expanded }, ((sel >> 2) % 21) as usize))
+}
+
+fn fuzz_cases(dir: &str, max: usize, prefixes: &[&str]) -> Vec<Case> {
+    let mut names: Vec<std::path::PathBuf> = match std::fs::read_dir(dir) {
+        Ok(rd) => rd.filter_map(|e| e.ok()).map(|e| e.path()).filter(|p| p.file_name().and_then(|n| n.to_str()).is_some_and(|n| prefixes.iter().any(|pre| n.starts_with(pre)))).collect(),
+        Err(_) => vec![],
+    };
+    names.sort();
+    // an even sample when there are more than `max`
+    let step = (names.len() / max.max(1)).max(1);
+    names.into_iter().step_by(step).filter_map(|p| std::fs::read(p).ok()).filter_map(|d| fuzz_case(&d)).collect()
+}
+
+/// one line about the campaign for the evidence
+fn fuzz_summary() -> Option<String> {
+    let dir = fuzz_dir()?;
+    let log = std::fs::read_to_string(format!("{dir}/fuzz.log")).ok()?;
+    // fork mode reports `#<executions>: cov: <edges> ft: .. corp: .. exec/s: ..` after every job
+    let execs: u64 = log.lines().rev().find_map(|l| l.strip_prefix('#').and_then(|r| r.split(':').next()).and_then(|n| n.trim().parse::<u64>().ok())).unwrap_or(0);
+    let cov = log.lines().rev().find_map(|l| l.split("cov: ").nth(1).and_then(|r| r.split_whitespace().next()).map(|s| s.to_string())).unwrap_or_default();
+    let crashes = log.matches("VFUZZ-FAILURE").count();
+    let corpus = std::fs::read_dir(format!("{dir}/fuzz-corpus")).map(|d| d.count()).unwrap_or(0);
+    Some(format!("libFuzzer campaign before this run (fuzz/fuzz_targets/compile.rs, -fork=16, seeded with the spec corpus and a token dictionary): {execs} executions, edge coverage {cov}, {corpus} inputs kept for new coverage, {crashes} failure reports; kept inputs and crash artefacts are re-judged in phases fuzz-corpus / fuzz-artifacts"))
+}
+
+pub fn dict() -> &'static [&'static str] {
+    DICT
+}
+
 const DICT: &[&str] = &[
     "@each", "@for", "@while", "@if", "@else", "@mixin", "@include", "@function", "@return", "@content", "@media", "@supports", "@at-root", "@extend", "@use", "@forward", "@import", "@error", "@warn", "@debug", "@charset", "@keyframes", "@font-face",
     "#{", "}", "{", "(", ")", "[", "]", "...", "!global", "!default", "!important", "!optional", "\\", "U+", "/*", "*/", "//", "\"", "'", "$", "&", "%", "@", ":", ";", ",", ".", "#", "*", "+", "-", "/", "=", "<", ">", "~", "|", "!", "\n", " ", "\t", "\r\n", "\u{c}",
@@ -363,7 +404,8 @@ impl Prop for C01 {
         C01
     }
     fn rule(&self) -> String {
-        "cases: (a) stylesheets from the G-prog grammar (all statement kinds, odd values, NaN/infinite numbers, unit products, `&` everywhere); (b) nests of blocks / value brackets+calls+interpolations / selector pseudo arguments up to total depth 64 with a comment indented 0..200 columns; (c) the spec-corpus inputs with 1-4 mutations (byte flip/insert/delete, dictionary token, splice from another input, truncate, duplicate); (d) token/byte soup; (e) the unmodified corpus; each with format scss|css, style expanded|compressed|introspection, precision 0..=20, run in a worker process on an 8 MiB stack. Inputs over 64 KiB or whose over-approximated nesting depth exceeds 64 are discarded. Non-trivial: distinct input that got past the parser (Ok, or an error other than ParseError)".into()
+        "cases: (a) stylesheets from the G-prog grammar (all statement kinds, odd values, NaN/infinite numbers, unit products, `&` everywhere); (b) nests of blocks / value brackets+calls+interpolations / selector pseudo arguments up to total depth 64 with a comment indented 0..200 columns; (c) the spec-corpus inputs with 1-4 mutations (byte flip/insert/delete, dictionary token, splice from another input, truncate, duplicate); (d) token/byte soup; (e) the unmodified corpus; each with format scss|css, style expanded|compressed|introspection, precision 0..=20, run in a worker process on an 8 MiB stack. Inputs over 64 KiB or whose over-approximated nesting depth exceeds 64 are discarded. Non-trivial: distinct input that got past the parser (Ok, or an error other than ParseError)".to_string()
+            + &fuzz_summary().map(|s| format!(". {s}")).unwrap_or_default()
     }
     fn assumptions(&self) -> Vec<String> {
         vec![
@@ -373,7 +415,7 @@ impl Prop for C01 {
         ]
     }
     fn phases(&self, tier: Tier) -> Vec<Phase<Case>> {
-        vec![
+        let v = vec![
             Phase::random("deep-nests", deep_cases(), tier.pick(6_000, 300_000)),
             Phase::random("grammar", grammar_cases(false), tier.pick(30_000, 1_500_000)),
             Phase::random("grammar-wild", grammar_cases(true), tier.pick(15_000, 800_000)),
@@ -381,7 +423,17 @@ impl Prop for C01 {
             Phase::random("corpus-mutation", mutated_cases(), tier.pick(30_000, 1_500_000)),
             Phase::random("soup", soup_cases(), tier.pick(10_000, 500_000)),
             Phase::random("corpus", corpus_cases(), tier.pick(6_000, 100_000)),
-        ]
+        ];
+        // what the libFuzzer campaign of `./check C01 thorough` stored: every crash artefact, and the corpus it built
+        // (inputs that reached new coverage), re-judged here by the worker-based oracle
+        let mut v = v;
+        if let Some(dir) = fuzz_dir() {
+            let mut arts = fuzz_cases(&format!("{dir}/fuzz-artifacts"), usize::MAX, &["crash-", "leak-"]);
+            arts.extend(fuzz_cases(&format!("{}/replays/regress/C01-fuzz", crate::engine::verif_root()), usize::MAX, &[""]));
+            v.insert(0, Phase::list("fuzz-artifacts", arts));
+            v.push(Phase::list("fuzz-corpus", fuzz_cases(&format!("{dir}/fuzz-corpus"), 60_000, &[""])));
+        }
+        v
     }
     fn render(&self, c: &Case) -> serde_json::Value {
         let src = c.src();
